@@ -33,6 +33,15 @@ def find_parser(prog, ty):
     return out
 
 
+def with_builder_spliced(prog, pid, ty):
+    """the parser, with the constructor it hands the components to (`Self::new(project, id)`) spliced in when it does not build
+    the name itself"""
+    if any(b2 == pid for (b2, _bb, _i, _rv) in prog.constructions(ty)):
+        return pid
+    builders = {b2 for (b2, _bb, _i, _rv) in prog.constructions(ty)}
+    return prog.inlined_variant(pid, lambda ti, bb, t: prog.qual(ti.body, t.callee.target) in builders)
+
+
 def find_display(prog, ty):
     for b in prog.facts.lib_bodies():
         if b.impl_self == ty and b.impl_trait == "std::fmt::Display" and b.id.endswith("::fmt"):
@@ -276,6 +285,17 @@ def r18_5(prog, out):
             # the aggregate building the name
             aggs = [(bb, i, rv) for (b2, bb, i, rv) in prog.constructions(ty) if b2 == pid]
             if not aggs:
+                # the parser hands the components to a constructor (`Self::new(project, id)`): look at the parser with it spliced in
+                builders = {b2 for (b2, _bb, _i, _rv) in prog.constructions(ty)}
+                vid = prog.inlined_variant(pid, lambda ti, bb, t: prog.qual(ti.body, t.callee.target) in builders)
+                if vid != pid:
+                    vi = prog.info(vid)
+                    aggs = [(blk.idx, i, st.rv) for blk in vi.body.blocks if not blk.cleanup and blk.idx in vi.cfg.reach
+                            for i, st in enumerate(blk.stmts) if st.k == "assign" and st.rv.k == "agg" and st.rv.j.get("ak") == "adt" and st.rv.j.get("adt") == ty]
+                    if aggs:
+                        pid = vid
+                        bi = vi
+            if not aggs:
                 out.undecided("%s:components" % label, prog.loc(pid), "the parser does not build the name directly")
                 continue
             bb, i, rv = aggs[-1]
@@ -477,8 +497,9 @@ def r18_9(prog, out):
     sl = Slicer(prog)
     n = 0
     for label, ty in name_types(prog):
-        for pid in find_parser(prog, ty):
+        for pid0 in find_parser(prog, ty):
             n += 1
+            pid = with_builder_spliced(prog, pid0, ty)
             bi = prog.info(pid)
             b = bi.body
 
@@ -512,14 +533,15 @@ def r18_9(prog, out):
                                         c.split("::")[-1] in TRIMS + ("get", "find", "strip_prefix", "strip_suffix", "split", "splitn", "map") for c in s.calls)
                                     cmps.append((blk.idx, rawonly))
             trims = []    # block in pid after which the trimmed value exists
-            for bid in prog.cone(pid, follow=("call", "closure")):
+            is_trim = lambda c: c.path.startswith("core::str::<impl str>::") and c.path.split("::")[-1] in TRIMS
+            for bb, t in bi.calls(is_trim):
+                trims.append((bb, t.callee.path.split("::")[-1], bi.loc(bb)))
+            for bid in prog.cone(pid0, follow=("call", "closure")):
                 ci = prog.info(bid)
-                if ci is None:
+                if ci is None or bid == pid0:
                     continue
-                for bb, t in ci.calls(lambda c: c.path.startswith("core::str::<impl str>::") and c.path.split("::")[-1] in TRIMS):
-                    if bid == pid:
-                        trims.append((bb, t.callee.path.split("::")[-1], prog.loc(bid, bb)))
-                    else:
+                for bb, t in ci.calls(is_trim):
+                    if True:
                         # in a closure of the parser: the call of the parser that is handed the closure
                         for blk in b.blocks:
                             for st in blk.stmts:
@@ -533,10 +555,12 @@ def r18_9(prog, out):
             if not raw_guards:
                 out.holds(key, prog.loc(pid), "no length requirement on the raw input")
                 continue
-            tb, tname, tloc = trims[0]
-            # the trimmed value flows into the stored name?  (a trim used only for a comparison does not matter)
+            # every shortening needs a length check on the components after it (a second trim behind the re-check -- in the
+            # constructor the parser ends with -- reopens the gap)
+            unguarded = [(t0, tn, tl) for t0, tn, tl in trims if not any(not raw and bb != t0 and bi.cfg.can_reach(t0, bb) for bb, raw in cmps)]
+            tb, tname, tloc = (unguarded or trims)[0]
             later = [bb for bb, raw in cmps if not raw and any(bi.cfg.dominates(t0, bb) or bi.cfg.can_reach(t0, bb) for t0, _, _ in trims)]
-            if later:
+            if later and not unguarded:
                 out.holds(key, bi.loc(later[0]), "the length requirement is re-checked on the components after %s()" % tname)
             else:
                 out.violation(key, tloc, "the input's length is checked (%s) before the id is shortened by %s(): an accepted name can be stored in a form whose canonical "
